@@ -18,6 +18,7 @@ EXPLANATION = (
     "contract-level store. It does not run query sequences or the garbage collector."
     ' Also evaluated here: refinement exactness (C04 R04.2): refined queries keep their assertion ids and named assertions.'
     " Round 4: the solving context's core store is its own default list (never handed in from a longer-lived object)."
+    ' Round 5: the core store is append-only and recorded cores are never modified in place (R16.8); which reply counts as unsat (C05 R05.3) and tracked serialisation (C11 R11.1) are evaluated here too.'
 )
 ASSUMPTIONS = [
     "z3 AST ids are unique among live terms of one context",
